@@ -71,6 +71,27 @@ def wide_circuit(n, regs=1300):
     return {"input_regs": [1] * n, "insts": insts, "max_reg": r + 1, "output_regs": [r, n], "and_ops": 1}
 
 
+def many_inputs(n, ir):
+    """Parties with MANY input bits (counts that cross the 8-bit and 128-bit packing boundaries), loaded in a
+    scrambled order; the result folds every input bit in (XOR), with an AND every 16 bits so that a misplaced
+    bit changes the outputs."""
+    pairs = [(p, i) for p in range(n) for i in range(ir[p])]
+    pairs = pairs[1::2] + pairs[0::2][::-1]
+    insts = [inst("I", p, i, k) for k, (p, i) in enumerate(pairs)]
+    ni = len(pairs)
+    acc, tmp = ni, ni + 1
+    insts.append(inst("X", 0, 1, acc))
+    ands = 0
+    for k in range(2, ni):
+        if k % 16 == 5:
+            insts.append(inst("A", acc, k, tmp))
+            insts.append(inst("X", tmp, k - 1, acc))
+            ands += 1
+        else:
+            insts.append(inst("X", acc, k, acc))
+    return {"input_regs": ir, "insts": insts, "max_reg": ni + 2, "output_regs": [acc, ni - 1, 0], "and_ops": ands}
+
+
 def fixed_small(n):
     """A few hand-written corner circuits for n parties."""
     cs = []
@@ -186,6 +207,9 @@ def honest_suite(seed, tier):
         circ = {"input_regs": [2] + [1] * (n - 1), "insts": ii + [inst("A", 0, 1, k), inst("X", k, 2, k + 1)],
                 "max_reg": k + 2, "output_regs": [k + 1, 0], "and_ops": 1}
         add_group(f"inorder.n{n}", circ, n - 1, [0, n - 1])
+    # parties with many input bits (9, 17, 130: across the byte and block boundaries of packed bit vectors)
+    for n, ir in ((2, [130, 9]), (3, [17, 1, 64])):
+        add_group(f"manyin.n{n}", many_inputs(n, ir), n - 1, [0, n - 1])
     # a WIDE circuit (more than 1024 registers, the per-register vectors of the online phase get long) with every party an
     # output party, also on 1-slot channels
     for n in (2, 3) if not quick else (2,):
